@@ -463,6 +463,17 @@ class Body:
                 return out
         return [n]
 
+    def walk_deep(self, e, _seen=None):
+        """walk(e), additionally descending into every definition of multiply-assigned locals."""
+        seen = _seen if _seen is not None else set()
+        for s_ in walk(norm(e)):
+            yield s_
+            if s_[0] == "local" and s_[1] not in seen:
+                seen.add(s_[1])
+                for d in self.defs.get(s_[1], []):
+                    x = self.expr_rv(d[3], frozenset([s_[1]])) if d[2] == "rv" else self.expr_call(d[3], frozenset([s_[1]]))
+                    yield from self.walk_deep(x, seen)
+
     def expr_call(self, t, seen=None):
         f = t["func"]
         args = [self.expr_op(a, seen) for a in t["args"]]
